@@ -67,3 +67,51 @@ func VerifC17Server() {
 		symAssertEq(d.String(), editor, "after didOpen and the didChange notifications the server's copy equals the editor's text")
 	}
 }
+
+// VerifC17ServerSessions: whole editing sessions against the server - document URIs as editors
+// send them (also with percent-escapes), version numbers that start wherever the editor likes and
+// start again after the document is closed and reopened, edits before and after reopening: the
+// server's copy follows the editor throughout.
+func VerifC17ServerSessions() {
+	s := NewServer(slog.New(slog.NewTextHandler(io.Discard, nil)), verifTarget{}, NewSourceMapCache(), NewDiagnosticCache(), true)
+	ctx := lsp.WithClient(context.Background(), verifClient{})
+	uri := lsp.DocumentURI([]string{"file:///w/x.templ", "file:///w/my%20site/x.templ", "file:///c%3A/w/x.templ"}[symChoose(3)])
+	texts := []string{"package p\n\ntempl a() {\n\t<p>a</p>\n}\n", "ab\ncd\n"}
+	text := texts[symChoose(2)]
+	ver := symInt32("firstVersion")
+	symAssume(ver >= 1 && ver <= 9)
+	err := s.DidOpen(ctx, &lsp.DidOpenTextDocumentParams{TextDocument: lsp.TextDocumentItem{URI: uri, Text: text, Version: ver}})
+	symAssert(err == nil, "didOpen accepted")
+	editor := text
+	change := func(tag string) {
+		line, col := uint32(symChoose(2)), uint32(symChoose(2))
+		ver++
+		editor = refSplice(editor, line, col, line, col, "y")
+		err := s.DidChange(ctx, &lsp.DidChangeTextDocumentParams{
+			TextDocument: lsp.VersionedTextDocumentIdentifier{TextDocumentIdentifier: lsp.TextDocumentIdentifier{URI: uri}, Version: ver},
+			ContentChanges: []lsp.TextDocumentContentChangeEvent{{
+				Range: &lsp.Range{Start: lsp.Position{Line: line, Character: col}, End: lsp.Position{Line: line, Character: col}}, Text: "y"}},
+		})
+		symAssert(err == nil, "didChange accepted ("+tag+")")
+		d, ok := s.TemplSource.Get(string(uri))
+		symAssert(ok, "the server holds a copy of the open document ("+tag+")")
+		if ok {
+			symAssertEq(d.String(), editor, "the server's copy equals the editor's text ("+tag+")")
+		}
+	}
+	for k := 0; k < symParam("BEFORE"); k++ {
+		change("first session")
+	}
+	if symBool("closeAndReopen") {
+		err = s.DidClose(ctx, &lsp.DidCloseTextDocumentParams{TextDocument: lsp.TextDocumentIdentifier{URI: uri}})
+		symAssert(err == nil, "didClose accepted")
+		text = texts[symChoose(2)]
+		err = s.DidOpen(ctx, &lsp.DidOpenTextDocumentParams{TextDocument: lsp.TextDocumentItem{URI: uri, Text: text, Version: 1}})
+		symAssert(err == nil, "didOpen after didClose accepted")
+		editor, ver = text, 1
+		for k := 0; k < symParam("AFTER"); k++ {
+			change("after reopening")
+		}
+	}
+	symCover("sessions")
+}
